@@ -340,12 +340,14 @@ class _MergeStub:
         Assumed.note("induction hypothesis: recursive Fn.merge call on strictly smaller sub-maps satisfies the Fn.merge contract")
         if not (isinstance(a, AbsNode) and isinstance(b, AbsNode)):
             raise EngineLimit("recursive merge on non-dict values")
-        if check is not o.check:
-            raise EngineLimit("recursive merge called with a different check")
+        if check is not None and not isinstance(check, Sym):
+            raise EngineLimit("recursive merge called with a check that is not a value")
+        # the hypothesis is instantiated with the check actually passed (a call that drops or changes it gets
+        # the merge that check produces, and the invariant below decides whether that is the right one)
         t = tail(o.P0)
         m = AbsNode(
             lambda q: z3.Or(a.leaf(q), b.leaf(q)),
-            lambda q: o.merged_val(a.leaf(q), b.leaf(q), a.val(q), b.val(q)),
+            lambda q: o.merged_val(a.leaf(q), b.leaf(q), a.val(q), b.val(q), (check,)),
             "merged_sub",
         )
         if check is not None:
@@ -356,7 +358,7 @@ class _MergeStub:
         return m, AbsNode(lambda q: z3.And(a.leaf(q), b.leaf(q)), a.val, "disc_sub")
 
 
-@contract("genjax.core:Fn.merge", ["C16", "C17", "C03", "C01"])
+@contract("genjax.core:Fn.merge", ["C16", "C17", "C03", "C01", "C05", "C09"])
 class FnMergeLoop(Contract):
     """loop invariant of Fn.merge's `for key in all_keys`.  Precondition `compat`: where both maps have the
     key, the two values are both dicts or both leaves (choice maps of one address structure)."""
@@ -367,10 +369,11 @@ class FnMergeLoop(Contract):
         for piece in ("prefix", "body:leaf/leaf", "body:dict/dict", "body:only_x", "body:only_x_", "suffix")
     ]
 
-    def merged_val(self, la, lb, va, vb):
-        if self.check is None:
+    def merged_val(self, la, lb, va, vb, check=None):
+        check = self.check if check is None else check[0]
+        if check is None:
             return z3.If(lb, vb, va)  # x_ wins
-        return z3.If(z3.And(la, lb), z3.If(self.check.e, va, vb), z3.If(lb, vb, va))
+        return z3.If(z3.And(la, lb), z3.If(check.e, va, vb), z3.If(lb, vb, va))
 
     def inv(self, result, discarded, Done, pt):
         LX, LY, VX, VY = self.LeafX, self.LeafY, self.ValX, self.ValY
@@ -653,7 +656,7 @@ class ScanMerge(_Delegate):
     method = "merge"
 
 
-@contract("genjax.core:Cond.merge", ["C16", "C01"])
+@contract("genjax.core:Cond.merge", ["C16", "C01", "C05", "C09"])
 class CondMerge(_Delegate):
     method = "merge"
 
